@@ -630,9 +630,21 @@ def Allowed (reg : List Str) : Effect → Prop
   | .construct c => ClosedCls reg c
   | .getattrMod m _ => m = nsBuiltins ∨ m = mErrors ∨ m = nsSqlite3
   | .importMod m => m = nsSqlite3
-  | .setattr c _ => ∃ q, c = .exc q ∧ q ∈ closedExcQuals
+  | .setattr (.exc q) _ => q ∈ closedExcQuals
+  | .setattr _ _ => False
   | .pureCall _ => True
   | .logWarn => True
+
+/-- the properties of the extracted tables that `decide +kernel` checks in one evaluation (PyroProps/C04.lean):
+    every reachable exception class is defined in builtins / Pyro5.errors / sqlite3 or is struct.error and has no
+    double underscore in its name; every sqlite3 attribute whose name ends in "Error" is an exception class; every
+    class `all_exceptions` maps to is in the closed list. -/
+def tablesOk : Bool :=
+  closedExcQuals.all (fun q =>
+    (startsWith q (cs "builtins.") || startsWith q (cs "Pyro5.errors.") || startsWith q (cs "sqlite3.")
+      || decide (q = cs "struct.error")) && !hasDunder q)
+  && sqliteErrorRows.all (fun r => match r.2 with | .exc _ => true | _ => false)
+  && Pyro.Gen.C04.allExceptions.all (fun p => decide (p.2 ∈ closedExcQuals))
 
 /-- the tags `dict_to_class` recognises by itself (`flag` = the dict's `__exception__` entry is truthy) -/
 def KnownTag (flag : Bool) (t : Str) : Prop :=
